@@ -80,8 +80,22 @@ Definition cmp_text (isteps : list rstep) (o : cmpop) (lit : list N) : list N :=
   [91; 63; 40; 64] ++ render_steps isteps ++ op_text o ++ lit ++ [41; 93].
 (* a negated existence filter [?(!@ steps)] *)
 Definition neg_text (isteps : list rstep) : list N := [91; 63; 40; 33; 64] ++ render_steps isteps ++ [41; 93].
-Inductive fstep := FS (x : rstep) | FE (isteps : list rstep) | FC (isteps : list rstep) (o : cmpop) (lit : list N) | FN (isteps : list rstep).
+(* a filter over a query in disjunctive form: [?(b && b ... || b && ... )], every b an existence test, its negation or a comparison *)
+Inductive bq := BE (isteps : list rstep) | BN (isteps : list rstep) | BC (isteps : list rstep) (o : cmpop) (lit : list N).
+Definition bq_text (b : bq) : list N :=
+  match b with
+  | BE i => 64 :: render_steps i
+  | BN i => 33 :: 64 :: render_steps i
+  | BC i o lit => 64 :: render_steps i ++ op_text o ++ lit
+  end.
+Definition and_text (c : list bq) : list N :=
+  match c with [] => [] | b :: bs => bq_text b ++ flat_map (fun x => [38; 38] ++ bq_text x) bs end.
+Definition q_text (d : list (list bq)) : list N :=
+  match d with [] => [] | c :: cs => and_text c ++ flat_map (fun x => [124; 124] ++ and_text x) cs end.
+Definition fq_text (d : list (list bq)) : list N := [91; 63; 40] ++ q_text d ++ [41; 93].
+Inductive fstep := FS (x : rstep) | FE (isteps : list rstep) | FC (isteps : list rstep) (o : cmpop) (lit : list N) | FN (isteps : list rstep)
+                 | FQ (d : list (list bq)).
 Definition render_fstep (x : fstep) : list N :=
-  match x with FS y => render_rstep y | FE i => filt_text i | FC i o lit => cmp_text i o lit | FN i => neg_text i end.
+  match x with FS y => render_rstep y | FE i => filt_text i | FC i o lit => cmp_text i o lit | FN i => neg_text i | FQ d => fq_text d end.
 Definition render_fsteps (l : list fstep) : list N := flat_map render_fstep l.
 Definition fchain_path (l : list fstep) : list N := 36 :: render_fsteps l.
